@@ -37,7 +37,7 @@ LEVEL_TEXT = ("seeded search over Set* permutations and over map schedules (item
               "scheduler at seam crossings and seeded line events, process boundary); trajectories compared field by field")
 LEVEL_NOTE = ("pre-emption granularity is seam crossings plus a seeded subset of source lines of /repo/mystic, not bytecodes; "
               "schedules are sampled, not enumerated")
-RUN_WALL = 45
+RUN_WALL = 150
 OPS_KEY = 'none'
 
 PERM_KNOBS = dict(p_term=0.6, p_limits=0.5, p_midrun_set=0.0, p_solve=0.0, p_finalize=0.0, max_ops=0, p_vector=0.08,
